@@ -111,6 +111,28 @@ theorem C12_closed_pool_is_empty (cfg : Cfg) (hc : cfg.initial ≤ cfg.maxSize) 
   have e := run_empty cfg acts
   exact e.closedEmpty hclosed (sumW_zero _ _ (fun x hx => by rw [hd x hx]; rfl))
 
+/-- **C12 (returned later = dropped).** An object whose return begins on a closed pool is
+dropped at once: it never enters the queue, so nobody — not even a `get()` that obtained its
+permit before `close()` — can be handed it; `size` drops by one, nothing else changes.  (The
+pinned code pushed it first and cleaned up afterwards, leaving a window in which such a getter
+popped it: repaired, see known_findings.txt.) -/
+theorem C12_return_after_close_dropped (s s' : State) (i id : Nat)
+    (hc : s.sem.closed = true) (h : stepRet s i id .push = some s') :
+    s'.queue = s.queue ∧ s'.hands = s.hands ∧ s'.dropped = s.dropped ++ [id] ∧
+    s'.size = s.size - 1 ∧ s'.sem = s.sem ∧ s'.sizeSem = s.sizeSem ∧ s'.available = s.available ∧
+    s'.ops = s.ops.set i .done ∧ s'.log = s.log ++ [.dropped i id] := by
+  simp only [stepRet, hc, if_true, Option.some.injEq] at h
+  subst h
+  exact ⟨rfl, rfl, rfl, rfl, rfl, rfl, rfl, rfl, rfl⟩
+
+/-- on an open pool the return goes the usual way: the object is queued first -/
+theorem C12_return_open_queues (s s' : State) (i id : Nat)
+    (hc : s.sem.closed = false) (h : stepRet s i id .push = some s') :
+    s'.queue = s.queue ++ [id] ∧ s'.dropped = s.dropped := by
+  simp only [stepRet, hc, Bool.false_eq_true, if_false, Option.some.injEq] at h
+  subst h
+  exact ⟨rfl, rfl⟩
+
 /-- **C10 (unmanaged timeout).** The unmanaged pool's single timeout follows the same rules
 as the managed pool's wait timeout: zero → never waits (`Timeout` at once if no object is
 available, `Closed` if closed); finite without runtime → `NoRuntimeSpecified` before the
